@@ -294,10 +294,15 @@ def _get_project_for_url_or_path(
     config: Config,
     custom_template_path: Optional[Path] = None,
 ) -> Union[Project, GeneratorError]:
-    data_dict = _get_document(source=config.document_source, timeout=config.http_timeout)
-    if isinstance(data_dict, GeneratorError):
-        return data_dict
-    openapi = GeneratorData.from_dict(data_dict, config=config)
+    try:
+        data_dict = _get_document(source=config.document_source, timeout=config.http_timeout)
+        if isinstance(data_dict, GeneratorError):
+            return data_dict
+        openapi = GeneratorData.from_dict(data_dict, config=config)
+    except RecursionError:
+        return GeneratorError(
+            header="Failed to parse OpenAPI document", detail="The document is nested too deeply to be processed."
+        )
     if isinstance(openapi, GeneratorError):
         return openapi
     return Project(
